@@ -29,6 +29,20 @@ CLAIMED = {
             "text does not claim all solutions). The fallback's (1,1) shape is cosmetic and not checked. NaN metric "
             "values (empty class) are outside.",
             "Coq proof (lists, nra/field over Q) + vm_compute correspondence + exact-Fraction oracle with recording callable"),
+    "C19": ("7/C19",
+            "Coq theorems over all genuine/fraud score lists, easy counts and labels about the model of doc_fraud.py "
+            "(translations mutually inverse; ValueError iff some score outside [0,1]; otherwise the constructed object "
+            "equals mk_scores genuines frauds easy translated-score_class Pos, hence every query coincides; aliases; "
+            "from_labels split = Scores.from_labels on the flags label == genuine_label, partition); the model is tied to "
+            "the source for all inputs by definitions regenerated from the current doc_fraud.py (enum values, both "
+            "translations, super().__init__ keyword mapping, the two range tests, aliases/setters, from_labels, defaults) "
+            "with 12 tie lemmas, the translator refusing any FraudScores member beyond __init__/genuines/frauds/from_labels; "
+            "plus model-vs-implementation correspondence on generated cases",
+            "trusted: translator tables (Enum call/.name semantics, np.any(a<c), mask indexing, Scores.__init__ = "
+            "mk_scores, median heuristic = warnings only). The clause 'every query returns exactly what Scores(...) "
+            "returns' is, at run time, an implementation-vs-implementation bitwise comparison in the oracle (49 queries "
+            "per object); in Coq it is the equality of the constructed records. NaN scores excluded.",
+            "Coq proof + ast-regenerated tie lemmas (all inputs) + vm_compute correspondence + differential oracle"),
 }
 PENDING = {}
 
